@@ -21,16 +21,16 @@ func init() {
 			"(4) AppendBatch: no flush/sync between the record writes of a batch, every record carries one loop-invariant sequence number, and every input-dependent rejection of writeRecord is tested with the identical size formula before the first record is written; " +
 			"(5) Buffer.Put/Delete copy key and value before storing them (capture at call time) and assign the same map under string(key) (last operation wins); Rollback clears the buffer before releasing the lock.",
 		NotDecided: "atomicity across a crash (the log format has no batch frame: a torn batch cannot be recognised at replay — design remark, needs a crash to observe); concurrent-reader interleavings.",
-		Rules:      []func(*Ctx, *Reporter){ruleTxBufferIsolation, ruleTxApplyInside, ruleStSingleWriter, ruleStEffectOnce, ruleWalBatch, ruleTxBufferCapture, ruleTxRollbackClears},
+		Rules:      []func(*Ctx, *Reporter){ruleTxBufferIsolation, ruleTxApplyInside, ruleStSingleWriter, ruleStEffectOnce, ruleWalBatch, ruleTxBufferCapture, ruleTxRollbackClears, ruleTxOpsBuffered},
 	})
 	register(&PropertyDef{
 		ID: "C06",
 		Explanation: "Linearizability is a property of recorded histories and is NOT decided. Decided are structural preconditions without which it fails: " +
 			"(1) single-writer section — in Put/Delete/ApplyBatch the log append, the memtable insert and the lastSeqNum update execute under one exclusive hold of storage.Manager.mu (closures passed to RetryOnWALRotating are analysed in the caller's lock context); readers hold it shared; " +
 			"(2) error means no effect, success means once — no exit between a successful append and the insert, every feasible exit after the insert returns nil, the retry closure is re-run only on ErrWALRotating, which every Append* returns before consuming a number or writing a byte; " +
-			"(3) the stamp given to the memtable is the very number the log assigned; (4) WAL pointer discipline — Manager.wal is accessed atomically on the write path.",
+			"(3) the stamp given to the memtable is the very number the log assigned; (4) WAL pointer discipline — Manager.wal is accessed atomically on the write path; (5) the retry wrapper's decision table (one call on success or on another error, an error after exhausted retries, re-run only on errors every Append* returns before any effect); (6) immutable memtables leave the pool (the read path) only into the flush path.",
 		NotDecided: "everything else: real-time order, stale reads across rotation, all schedules with background flush/compaction.",
-		Rules:      []func(*Ctx, *Reporter){ruleStSingleWriter, ruleStEffectOnce, ruleStStamps, ruleWalRotatingNoEffect, ruleStWalPointer},
+		Rules:      []func(*Ctx, *Reporter){ruleStSingleWriter, ruleStEffectOnce, ruleStStamps, ruleWalRotatingNoEffect, ruleStWalPointer, ruleLayersLeaveOnly},
 	})
 	register(&PropertyDef{
 		ID: "C08",
@@ -56,6 +56,17 @@ func ruleWalRotatingNoEffect(c *Ctx, r *Reporter) {
 	}
 }
 
+func ruleLayersLeaveOnly(c *Ctx, r *Reporter) {
+	tmp := NewReporter(r.Property)
+	ruleLayerOrder(c, tmp)
+	for _, o := range tmp.Obls {
+		if o.Rule == r.Property+"/layers-leave-only-to-be-flushed" {
+			r.Rule("layers-leave-only-to-be-flushed", 1)
+			r.add(o.Status, o.Construct, o.Pos, o.Detail, o.Path)
+		}
+	}
+}
+
 func ruleStRotationSeqOnly(c *Ctx, r *Reporter) {
 	tmp := NewReporter(r.Property)
 	ruleStRotation(c, tmp)
@@ -76,9 +87,9 @@ func init() {
 			"(3) version order — decision tables of entry.compareWithEntry, SkipList.Find's selection and SkipList.Insert's position (P-ORD over all orderings); flush keeps the first (newest) entry of a key unless a later one has a strictly higher sequence; " +
 			"(4) stamps — the memtable stamp is the number the log assigned; (5) empty is not deleted — no nil-collapsing copy reaches a 'nil means tombstone' sink and a value entry never keeps nil; " +
 			"(6) flush writes every collected entry, tombstones included, with its own sequence number; the tombstone marker constant is shared by block writer and reader; " +
-			"(7) the SSTable list is given a recency order when loaded from disk.",
+			"(7) the SSTable list is given a recency order when loaded from disk; (8) a successful transactional Put/Delete has buffered exactly that operation and pending operations leave the buffer only through Clear; immutable memtables leave the pool only into the flush path.",
 		NotDecided: "that the bytes returned equal the bytes put for every program (values); block/index seek landing inside SSTables (value-level binary search — the pinned tree gets this wrong, declared under C11); effects of memtable-size configurations.",
-		Rules:      []func(*Ctx, *Reporter){ruleLayerOrder, ruleTombstoneShortCircuit, ruleMemComparator, ruleMemFind, ruleMemInsert, ruleFlushRules, ruleStStamps, ruleEmptyNotDeleted, ruleTombstoneMarker, ruleRecencyAtLoad},
+		Rules:      []func(*Ctx, *Reporter){ruleLayerOrder, ruleTombstoneShortCircuit, ruleMemComparator, ruleMemFind, ruleMemInsert, ruleFlushRules, ruleStStamps, ruleEmptyNotDeleted, ruleTombstoneMarker, ruleRecencyAtLoad, ruleTxOpsBuffered},
 	})
 	register(&PropertyDef{
 		ID: "C05",
